@@ -185,3 +185,37 @@ c02_async!(c02_async_rmi_overflow_class, 50, {
     std::mem::forget(res);
     std::mem::forget(buf);
 });
+
+//@ name: c02_async_rm_q2b0_trunc_in_query
+//@ prop: C02
+//@ tier: experimental
+//@ timeout: 900
+//@ clause: read_message_async: a stream that ends inside the query of a consistent empty-body frame is an error (never Ok with a padded query)
+//@ funcs: async_io::read_message_async; io::try_zeroed_vec; Header::decode; Message::new
+//@ symbolic: 49 stream bytes (every bit except the two declared payload lengths)
+//@ bounds: query_length=2, body_length=0; stream = first 49 bytes (ends 1 byte into the query); in-memory reader (never Pending); unwind 12
+//@ oracle: Ok is impossible
+//@ stubs: none
+//@ replay: playback
+#[kani::proof]
+#[kani::unwind(12)]
+fn c02_async_rm_q2b0_trunc_in_query() {
+    async_read_message::<2, 0, 49>();
+}
+
+//@ name: c02_async_rm_q2b0_exact
+//@ prop: C02
+//@ tier: experimental
+//@ timeout: 900
+//@ clause: read_message_async on hostile bytes returns Ok only for a complete consistent frame whose query is the stream's bytes (empty body), consuming exactly the frame
+//@ funcs: async_io::read_message_async; io::try_zeroed_vec; Header::decode; Message::new
+//@ symbolic: 50 stream bytes (every bit except the two declared payload lengths)
+//@ bounds: query_length=2, body_length=0; stream = exactly 50 bytes; in-memory reader (never Pending); unwind 12
+//@ oracle: u128 consistency predicate on the raw stream bytes
+//@ stubs: none
+//@ replay: playback
+#[kani::proof]
+#[kani::unwind(12)]
+fn c02_async_rm_q2b0_exact() {
+    async_read_message::<2, 0, 50>();
+}
